@@ -139,23 +139,29 @@ fn check_expl_pct(v: Value) -> Result<f64, String> {
     if !val.unit.is_percent() {
         return Err(expected_to(val, "have unit \"%\""));
     }
-    if val.value < 0.into() || val.value > 100.into() {
-        Err(expected_to(val, "be within 0% and 100%"))
+    match fuzzy_unit_range(f64::from(val.value.clone()) / 100.) {
+        Some(v) => Ok(v),
+        None => Err(expected_to(val, "be within 0% and 100%")),
+    }
+}
+
+/// Check that a value is in the 0..1 range, accepting (and clamping) a
+/// value that is outside of it by no more than a rounding error, so
+/// that a channel computed from a color is always accepted.
+fn fuzzy_unit_range(v: f64) -> Option<f64> {
+    const EPSILON: f64 = 1e-11;
+    if (-EPSILON..=1. + EPSILON).contains(&v) {
+        Some(v.clamp(0., 1.))
     } else {
-        Ok(f64::from(val.value) / 100.)
+        None
     }
 }
 
 fn check_pct_range(v: Value) -> Result<f64, String> {
     let val = check_pct(v)?;
-    if val < 0.into() || val > 1.into() {
-        Err(expected_to(
-            Numeric::percentage(val),
-            "be within 0% and 100%",
-        ))
-    } else {
-        Ok(val)
-    }
+    fuzzy_unit_range(val).ok_or_else(|| {
+        expected_to(Numeric::percentage(val), "be within 0% and 100%")
+    })
 }
 
 fn check_amount(v: Value) -> Result<f64, String> {
